@@ -47,7 +47,7 @@ Example C10_multi_nonvacuous :
                                        (multi_plan Kotlin idl cs)) in
      map fst r = [lit "alpha.kt"; lit "beta.kt"] /\ w_all_good CKT r = true /\
      w_file_contains (lit "beta.kt") "package com.x.beta" r = true /\
-     w_file_contains (lit "beta.kt") "import com.x.alpha.Item" r = true) /\
+     w_file_contains (lit "beta.kt") "import com.x.alpha.OPItem" r = true) /\
     (let r := w_texts (generate_crates (fun st (_ : str) (_ : scoped) pd => sw_generate_multi uc_exec Proofs.C10.w_sw_cfg st pd) false
                                        (multi_plan Swift idl cs)) in
      map fst r = [lit "Alpha.swift"; lit "Beta.swift"] /\ w_all_good CSW r = true) /\
